@@ -27,6 +27,9 @@ ATOMS = {
     "tuple_index": (lambda i: ["LeftParen", ("Int", 10 + i), "Comma", ("Int", 2), "RightParen", "LeftBracket", ("Int", 1), "RightBracket"], lambda i: "index(tup(%d,2),1)" % (10 + i), lambda i: "(%d, 2)[1]" % (10 + i)),
     "paren_call": (lambda i: ["LeftParen", ("Identifier", "g%d" % i), "RightParen", "LeftParen", ("Int", i), "RightParen"], lambda i: "call(g%d,[%d])" % (i, i), lambda i: "(g%d)(%d)" % (i, i)),
     "call_field": (lambda i: [("Identifier", "f%d" % i), "LeftParen", "RightParen", "Dot", ("Identifier", "y")], lambda i: "field(call(f%d,[]),y)" % i, lambda i: "f%d().y" % i),
+    # block expressions used as operands: they end at their `end`, what follows is an ordinary operator
+    "if_expr": (lambda i: ["If", ("Identifier", "p%d" % i), "Do", ("Int", 10 + i), "Else", ("Int", 20 + i), "End"], lambda i: "If", lambda i: "if p%d do %d else %d end" % (i, 10 + i, 20 + i)),
+    "fn_call": (lambda i: ["Fn", "Arrow", ("Int", 10 + i), "End", "LeftParen", "RightParen"], lambda i: "call(Function,[])", lambda i: "fn -> %d end()" % (10 + i)),
     "paren": (lambda i: ["LeftParen", ("Int", 10 + i), "RightParen"], lambda i: "%d" % (10 + i), lambda i: "(%d)" % (10 + i)),
 }
 UNARY = ("neg", "not", "neg_call", "not_field")
